@@ -284,7 +284,32 @@ fn eval_runner(tag: &str, text: &str, c: &MachineConfig, n: usize, ints: &[usize
                 match stepped(text, c, n, ints, resets) {
                     Some((m, k)) => {
                         if m == r.machine && k == r.emulated_cycles {
-                            "same".to_string()
+                            // a configuration that has been run before with another program, other inputs and schedules
+                            // and is then given these must report the same again (a run depends on its configuration
+                            // only, not on earlier runs of the same object)
+                            let mut reused = RunnerConfigBuilder::default()
+                                .with_machine_config(MachineConfig::default())
+                                .with_max_cycles(7usize)
+                                .with_program("#! mrasm\n INC R0\n ST (0xFF), R0\n")
+                                .build()
+                                .unwrap();
+                            let _ = catch_unwind(AssertUnwindSafe(|| reused.run().map(|_| ())));
+                            reused.machine_config = c.clone();
+                            reused.max_cycles = n;
+                            reused.program = text;
+                            reused.interrupts = ints.to_vec();
+                            reused.resets = resets.to_vec();
+                            let again = catch_unwind(AssertUnwindSafe(|| reused.run()));
+                            match again {
+                                Ok(Ok(r2)) if r2.machine == m && r2.emulated_cycles == k => {
+                                    // ... and a second run of the very same object as well
+                                    match catch_unwind(AssertUnwindSafe(|| config.run())) {
+                                        Ok(Ok(r3)) if r3.machine == m && r3.emulated_cycles == k => "same".to_string(),
+                                        _ => "differs second-run-of-the-same-configuration".to_string(),
+                                    }
+                                }
+                                _ => "differs run-of-a-reused-configuration".to_string(),
+                            }
                         } else {
                             format!("differs stepped-k={} runner-k={}", k, r.emulated_cycles)
                         }
